@@ -80,7 +80,7 @@ def bindings_of(fn, name):
     return out
 
 
-def reaching(fn, pm, name, at):
+def reaching(fn, pm, name, at, _depth=0):
     """The binding of `name` that reaches node `at`: the nearest preceding binding, provided it sits in a block that
     encloses `at` (so that it dominates `at` unless re-bound in between, which `nearest` rules out) and no other binding
     of the name lies between it and `at` in a non-enclosing branch.  None: not decidable by this rule."""
@@ -115,6 +115,64 @@ def reaching(fn, pm, name, at):
             if any(id(l) in anc for l in loops_b) and not any(id(l) in set(id(a) for a in ancestors(pm, st)) for l in loops_b if id(l) in anc):
                 return None
         return best
+    return _reaching_through_guard(fn, pm, name, at, best, _depth)
+
+
+def _says_not_none(test, x, positive=True):
+    t = ast.unparse(test).replace("(", "").replace(")", "")
+    pos_forms = (f"{x} is not None", f"{x}", f"not {x} is None", f"{x} != None")
+    neg_forms = (f"{x} is None", f"not {x}", f"not {x} is not None", f"{x} == None")
+    return t in (pos_forms if positive else neg_forms)
+
+
+def _reaching_through_guard(fn, pm, name, at, best, depth=0):
+    """The nearest binding `best` of `name` sits in a branch that does not enclose `at`.  It still is THE definition seen at `at` when
+    `at` only runs under a guard `X is not None`, X is assigned on every branch of one conditional that precedes `at` in an enclosing
+    block (so X is fresh in every iteration), and `best` reaches every place where X gets a value other than None."""
+    if depth > 2 or len([b for b in bindings_of(fn, name) if b.kind != "param"]) != 1:
+        return None
+    chain = [at] + ancestors(pm, at)
+    guards = []
+    for child, a in zip(chain, chain[1:]):
+        if isinstance(a, ast.If):
+            in_body = any(child is x for x in a.body)
+            for x in {n.id for n in ast.walk(a.test) if isinstance(n, ast.Name)}:
+                if (in_body and _says_not_none(a.test, x, True)) or (not in_body and _says_not_none(a.test, x, False)):
+                    guards.append(x)
+        for fld in ("body", "orelse"):
+            lst = getattr(a, fld, None)
+            if isinstance(lst, list) and any(child is x for x in lst):
+                k = [i for i, x in enumerate(lst) if child is x][0]
+                for prev in lst[:k]:
+                    if isinstance(prev, ast.If) and not prev.orelse and prev.body and isinstance(prev.body[-1], (ast.Continue, ast.Return, ast.Break, ast.Raise)):
+                        for x in {n.id for n in ast.walk(prev.test) if isinstance(n, ast.Name)}:
+                            if _says_not_none(prev.test, x, False):
+                                guards.append(x)
+    anc = set(id(a) for a in chain[1:]) | {id(fn)}
+    for x in guards:
+        xb = [b for b in bindings_of(fn, x) if b.kind != "param" and pos(b.node) < pos(at)]
+        if not xb or any(b.kind != "assign" for b in xb):
+            continue
+        # the conditional that assigns X on all its branches, as a statement of a block enclosing `at`
+        skel = None
+        for cand in ancestors(pm, xb[0].node):
+            if isinstance(cand, ast.If) and id(pm.get(cand)) in anc and pos(cand) < pos(at) and all(any(c is cand for c in ancestors(pm, b.node)) for b in xb) \
+                    and not any(x is cand for x in chain):
+                skel = cand
+                break
+
+        def assigns_all(stmts):
+            for st in stmts:
+                if isinstance(st, ast.Assign) and any(isinstance(t, ast.Name) and t.id == x for t in st.targets):
+                    return True
+                if isinstance(st, ast.If) and st.orelse and assigns_all(st.body) and assigns_all(st.orelse):
+                    return True
+            return False
+        if skel is None or not (skel.orelse and assigns_all(skel.body) and assigns_all(skel.orelse)):
+            continue
+        vals = [b for b in xb if not (isinstance(b.value, ast.Constant) and b.value.value is None)]
+        if vals and all((lambda r: r is not None and r.node is best.node)(reaching(fn, pm, name, b.node, depth + 1)) for b in vals):
+            return best
     return None
 
 
